@@ -213,6 +213,24 @@ struct Reader {
         return listTok(out);
     }
 };
+// the whole-array write that also sets the extent: setData(container), the shape comes from the container
+struct WholeWriter {
+    nix::DataArray *da; nix::NDSize shape; const std::vector<std::string> *vals;
+    template<typename T> std::string run() {
+        if (vals->size() != nelms(shape)) throw ProtoError("da_whole: the values do not fill the shape");
+        if (shape.size() < 1 || shape.size() > 3) throw ProtoError("da_whole rank");
+        wholeTransfers++;
+        MA<T>::write(da, shape, *vals);
+        return "";
+    }
+};
+template<> std::string WholeWriter::run<std::string>() {
+    if (shape.size() != 1 || vals->size() != nelms(shape)) throw ProtoError("da_whole String: rank 1 only");
+    std::vector<std::string> v;
+    for (auto &x : *vals) v.push_back(Conv<std::string>::from(x));
+    da->setData(v);
+    return "";
+}
 struct Appender {
     nix::DataArray *da; nix::DataType dt; nix::NDSize count; size_t axis; const std::vector<std::string> *vals;
     template<typename T> std::string run() {
@@ -246,6 +264,15 @@ DRV_OP(da_wr) {
         std::vector<std::string> v = tokList(a[4]);
         Writer w{&wrH(), dtOf(a[1]), nd(a[2]), nd(a[3]), &v};
         return withType(w.dt, w);
+    });
+}
+// da_whole <buffer dtype> <shape> [values] : DataArray::setData(container of that shape) — whole write, sets the extent as well
+DRV_OP(da_whole) {
+    if (a.size() != 4) throw ProtoError("da_whole arity");
+    return guarded([&]() {
+        std::vector<std::string> v = tokList(a[3]);
+        WholeWriter w{&wrH(), nd(a[2]), &v};
+        return withType(dtOf(a[1]), w);
     });
 }
 // da_rd <dtype> <count> <offset> <n elements expected in the buffer>
